@@ -144,8 +144,10 @@ func c06run(out *evid.Out, f *evid.Flags, run int) {
 	r := rng.New(f.Seed, 0xc06, uint64(run))
 	// destination kind cycles fastest; the other parameters are decoded from the remaining digits of the run
 	// number so that no two of them are tied together
-	const nDest = 8
-	destKind := run % nDest // 0 plain, 1 SyncWriter(LevelWriter), 2 Multi of two, 3 ConsoleWriter literal, 4 log.Logger global, 5 NewConsoleWriter(...), 6 SyncWriter(plain io.Writer), 7 ConsoleWriter{Out: SyncWriter(...)}: SyncWriter reached through its plain Write
+	const nDest = 9
+	destKind := run % nDest // 0 plain, 1 SyncWriter(LevelWriter), 2 Multi of two, 3 ConsoleWriter literal, 4 log.Logger global, 5 NewConsoleWriter(...), 6 SyncWriter(plain io.Writer), 7 ConsoleWriter{Out: SyncWriter(...)}: SyncWriter reached through its plain Write,
+	// 8 plain recorder, but every pair of events of a worker is a "request" logged through its own short-lived
+	// TriggerLevelWriter (hold up to warn, release at error) created with Output(): the writers' buffer pool is shared
 	q := run / nDest
 	G := []int{4, 32}[q%2]
 	K := 40 + r.Intn(60)
@@ -160,7 +162,10 @@ func c06run(out *evid.Out, f *evid.Flags, run int) {
 	}
 	old := runtime.GOMAXPROCS(procs)
 	defer runtime.GOMAXPROCS(old)
-	withSampler := r.Chance(1, 3) && destKind != 3 && destKind != 5 && destKind != 7
+	withSampler := r.Chance(1, 3) && destKind != 3 && destKind != 5 && destKind != 7 && destKind != 8
+	if destKind == 8 && K%2 == 1 {
+		K++
+	}
 	samplerKind := r.Intn(2) // 0: BasicSampler{3}; 1: LevelSampler -> BurstSampler that admits everything (atomics under contention)
 	st := gen.DefaultSettings()
 	st.GlobalLevel = zerolog.TraceLevel
@@ -201,6 +206,10 @@ func c06run(out *evid.Out, f *evid.Flags, run int) {
 			}
 			ev.Fin = []string{"Msg", "Msgf", "Send", "MsgFunc"}[cr.Intn(4)]
 			ev.Msg = g.V.String()
+			if destKind == 8 && i%2 == 1 {
+				// the second event of a request is at error level: it releases what the first one may have left held
+				ev.Entry, ev.Level, ev.Err = "WithLevel", zerolog.ErrorLevel, nil
+			}
 			chains[w] = append(chains[w], chain6{id: fmt.Sprintf("w%d-%d", w, i), ev: ev, lvl: ev.Level})
 		}
 	}
@@ -261,6 +270,23 @@ func c06run(out *evid.Out, f *evid.Flags, run int) {
 		}
 		gen.Finish(e, &c.ev)
 	}
+	// emitAll logs worker w's chains through l; for destination kind 8 two by two through a request-scoped
+	// TriggerLevelWriter in front of the logger's destination dst
+	emitAll := func(l *zerolog.Logger, dst io.Writer, w int, each func(i int, lg *zerolog.Logger, c *chain6)) {
+		if destKind != 8 {
+			for i := range chains[w] {
+				each(i, l, &chains[w][i])
+			}
+			return
+		}
+		for i := 0; i+1 < len(chains[w]); i += 2 {
+			tw := &zerolog.TriggerLevelWriter{Writer: dst, ConditionalLevel: zerolog.WarnLevel, TriggerLevel: zerolog.ErrorLevel}
+			lr := l.Output(tw)
+			each(i, &lr, &chains[w][i])
+			each(i+1, &lr, &chains[w][i+1])
+			tw.Close()
+		}
+	}
 	// ---- phase 1: every chain alone, through a capturing destination of the same shape
 	_, recs1 := mkDest(1 << 30)
 	expect := make([]map[string][]byte, len(recs1))
@@ -285,9 +311,7 @@ func c06run(out *evid.Out, f *evid.Flags, run int) {
 		shared = threeHooks(baseC)
 		for w := 0; w < G; w++ {
 			l := mkLogger(baseC, w)
-			for i := range chains[w] {
-				emit(&l, &chains[w][i])
-			}
+			emitAll(&l, root, w, func(i int, lg *zerolog.Logger, c *chain6) { emit(lg, c) })
 		}
 		for k := range capW {
 			expect[k] = capW[k].m
@@ -349,8 +373,7 @@ func c06run(out *evid.Out, f *evid.Flags, run int) {
 				l = l.Sample(admitAll6{})
 			}
 			useSampled := withSampler && w%4 == 0
-			for i := range chains[w] {
-				c := &chains[w][i]
+			emitAll(&l, root2, w, func(i int, lr *zerolog.Logger, c *chain6) {
 				switch {
 				case useSampled:
 					atomic.AddInt64(&sampledIssued, 1)
@@ -359,13 +382,13 @@ func c06run(out *evid.Out, f *evid.Flags, run int) {
 					lg := zlog.Logger
 					emit(&lg, c)
 				default:
-					emit(&l, c)
+					emit(lr, c)
 				}
 				if i%7 == 3 {
 					// derive (and drop) further children from the shared ancestors while others log
 					_ = base2.With().Int("tmp", i).Logger()
 				}
-			}
+			})
 		}(w)
 	}
 	close(start)
